@@ -49,17 +49,21 @@ def probe_times(c, eng):
         for t in range(7):
             x = float(eng.time_at(Beat(b, 48), EventTag(t)))
             ts.append((x, 5)); ts.append((x, 0)); ts.append((x, t))
-    state_times = sorted({float(s.event.time) for s in eng._state_machine})
+    # state times and pauses through the public API only: every state sits on an event beat under some tag
+    ev_beats = sorted({Fraction(b, 48) for k in ("bpms", "stops", "delays") for b, _ in c["td"][k]} |
+                      {x for iv in warp_union(c["td"]) for x in iv} | {Fraction(0)})
+    state_times = sorted({float(eng.time_at(Beat(b), EventTag(t))) for b in ev_beats for t in range(7)})
     for x in state_times:
         for d in (1e-7, -1e-7):
             ts.append((x + d, 5))
         ts.append((math.nextafter(x, math.inf), 5)); ts.append((math.nextafter(x, -math.inf), 5))
     # inside every pause
-    for s in eng._state_machine:
-        if s.event.tag in (EventTag.STOP, EventTag.DELAY):
-            v = float(s.event.value)
+    for key, tg in (("stops", EventTag.STOP), ("delays", EventTag.DELAY)):
+        for b, val in c["td"][key]:
+            v = float(Decimal(val))
+            t0 = float(eng.time_at(Beat(b, 48), tg))
             for fr in (0.25, 0.5, 0.999999):
-                ts.append((float(s.event.time) + v * fr, 5)); ts.append((float(s.event.time) + v * fr, 0))
+                ts.append((t0 + v * fr, 5)); ts.append((t0 + v * fr, 0))
     lo, hi = state_times[0] - 3, state_times[-1] + 5
     for _ in range(12):
         ts.append((rng.uniform(lo, hi), rng.choice([0, 5, 5, 6])))
